@@ -28,6 +28,10 @@ type RWorld struct {
 	rdOn  bool
 	rdCtl chan struct{}
 	rdWg  sync.WaitGroup
+
+	recv1On  bool
+	recv1Ctl chan struct{}
+	start    time.Time
 }
 
 func (w *RWorld) inbound() (func() (int, bool, bool), func() <-chan struct{}) {
@@ -112,6 +116,12 @@ func (w *RWorld) Exec(st Step) {
 		w.Sock.Arrive(sim.RawLost(0, st.N))
 	case "adv":
 		time.Sleep(time.Duration(st.D) * time.Microsecond)
+	case "advto": // sleep until D microseconds after the beginning of the run (no drift from the steps in between)
+		if d := time.Until(w.start.Add(time.Duration(st.D) * time.Microsecond)); d > 0 {
+			time.Sleep(d)
+		} else if d < -time.Duration(w.Cfg.Slack)*time.Microsecond*10 {
+			w.Rec.Simple("Late", -1, int(-d/time.Microsecond), -1, "advto")
+		}
 	case "failsend":
 		w.Sock.FailSend(st.Act == "on")
 		w.Rec.Simple("FailSend", -1, -1, -1, st.Act)
@@ -126,6 +136,51 @@ func (w *RWorld) Exec(st Step) {
 		default:
 			w.Rec.Simple("RecvNone", -1, st.N, -1, "")
 		}
+	case "recv1": // one blocking receive (AppRecv / AppRecvRet of Router.tla)
+		w.mu.Lock()
+		pend := w.recv1On
+		if !pend {
+			w.recv1On = true
+			if w.recv1Ctl == nil {
+				w.recv1Ctl = make(chan struct{})
+			}
+		}
+		ctl := w.recv1Ctl
+		w.mu.Unlock()
+		if pend {
+			skip("recv-pending")
+			return
+		}
+		w.rdWg.Add(1)
+		go func() {
+			defer w.rdWg.Done()
+			defer func() { w.mu.Lock(); w.recv1On = false; w.mu.Unlock() }()
+			if w.Cfg.Group {
+				select {
+				case <-ctl:
+				case ev, ok := <-w.GR.Inbound():
+					if !ok {
+						w.Rec.Simple("RecvClosed", -1, -1, -1, "")
+						return
+					}
+					pid := -1
+					if len(ev.Data) == 3 {
+						pid = int(ev.Data[1])<<8 | int(ev.Data[2])
+					}
+					w.Rec.Emit(sim.Ev{K: "Recv", G: -1, Ch: -1, Seq: -1, St: -1, Pid: pid, A: -1, B: -1})
+				}
+				return
+			}
+			select {
+			case <-ctl:
+			case m, ok := <-w.R.Inbound():
+				if !ok {
+					w.Rec.Simple("RecvClosed", -1, -1, -1, "")
+					return
+				}
+				w.Rec.Emit(sim.Ev{K: "Recv", G: -1, Ch: -1, Seq: -1, St: -1, Pid: sim.PidOf(m), A: -1, B: -1})
+			}
+		}()
 	case "drain":
 		try, _ := w.inbound()
 		idle := 0
@@ -207,7 +262,9 @@ func runRouter(rec *sim.Recorder, r Run) {
 		retain = 32
 	}
 	rec.Emit(sim.Ev{K: "Cfg", G: -1, Ch: int(r.Cfg.Slack), Seq: -1, St: -1, Pid: r.ID, A: int(r.Cfg.Pause), B: retain, S: "router"})
-	w := &RWorld{Rec: rec, Cfg: r.Cfg, busy: map[int]bool{}}
+	stopWd := Watchdog(rec, 4000) // records scheduling stalls above 1 ms (conformance runs are not compared then)
+	defer stopWd()
+	w := &RWorld{Rec: rec, Cfg: r.Cfg, busy: map[int]bool{}, start: time.Now()}
 	poll := time.Duration(r.Cfg.Poll) * time.Microsecond
 	if poll <= 0 {
 		poll = 50 * time.Microsecond
@@ -239,6 +296,13 @@ func runRouter(rec *sim.Recorder, r Run) {
 		w.rdWg.Wait()
 		w.rdOn = false
 	}
+	w.mu.Lock()
+	if w.recv1Ctl != nil {
+		close(w.recv1Ctl)
+		w.recv1Ctl = nil
+	}
+	w.mu.Unlock()
+	w.rdWg.Wait()
 	closedBefore := w.Sock.IsClosed()
 	names := ""
 	cl := 0
